@@ -477,6 +477,10 @@ func (g *gen) field(thisField, thatField string, fieldType types.Type) (string, 
 	case *types.Map:
 		return fmt.Sprintf("%s(%s, %s)", g.GetFuncName(typ, typ), thisField, thatField), nil
 	case *types.Struct:
+		if _, unnamed := fieldType.(*types.Struct); unnamed {
+			// an unnamed struct gets its own function, via a pointer this would recurse forever, since there is no named type to stop at.
+			return fmt.Sprintf("%s(%s, %s)", g.GetFuncName(fieldType, fieldType), thisField, thatField), nil
+		}
 		return g.field("&"+thisField, "&"+thatField, types.NewPointer(fieldType))
 	default: // *Chan, *Tuple, *Signature, *Interface, *types.Basic.Kind() == types.UntypedNil, *Struct
 		return "", fmt.Errorf("unsupported type %#v", fieldType)
